@@ -66,9 +66,9 @@ TaprootCommitmentEnv::State TaprootCommitmentEnv::Iterate() {
     return res ? State::Done : State::Failed;
 }
 
-std::vector<std::string> TaprootCommitmentEnv::Description() {
+std::vector<std::string> TaprootCommitmentEnv::Description(size_t from) {
     std::vector<std::string> rv;
-    for (size_t i = 0; i < m_path_len; ++i) {
+    for (size_t i = from; i < m_path_len; ++i) {
         auto node_begin = m_control.data() + TAPROOT_CONTROL_BASE_SIZE + TAPROOT_CONTROL_NODE_SIZE * i;
         rv.push_back(strprintf("Branch: %s", HexStr(Span<const unsigned char>(node_begin, TAPROOT_CONTROL_NODE_SIZE)).c_str()));
     }
